@@ -18,7 +18,13 @@ def gen_term(rng):
     where = rng.choice(["in", "in", "in", "edge", "out", "out"])
     if fam in ("uniform", "log-uniform"):
         lb = U(0.01, 3) if fam == "log-uniform" else U(-3, 3); ub = lb + U(0.1, 5)
-        x = {"in": U(lb, ub), "edge": rng.choice([lb, ub, lb + 1e-9, ub - 1e-9]), "out": rng.choice([lb - U(1e-6, 2), ub + U(1e-6, 2)])}[where]
+        if fam == "uniform" and rng.random() < 0.06:
+            # a support far smaller than any absolute tolerance a comparison might carry
+            lb, ub = 1e-10, 1e-9; return [pos, fam, lb, ub, rng.choice([5e-10, 5e-9, -5e-9, 2e-9, 0.0])]
+        # outside the support by a hair: a few millionths of the bound, a few billionths in absolute terms (seeded change S5_C16: the
+        # bounds were compared with np.isclose's default tolerances)
+        near = rng.choice([ub + 3e-6 * abs(ub) + 2e-9, lb - 3e-6 * abs(lb) - 2e-9, ub + 4e-9, lb - 4e-9])
+        x = {"in": U(lb, ub), "edge": rng.choice([lb, ub, lb + 1e-9, ub - 1e-9]), "out": rng.choice([lb - U(1e-6, 2), ub + U(1e-6, 2), near])}[where]
         return [pos, fam, lb, ub, x]
     if fam == "gaussian":
         mu, s = U(-3, 3), U(0.1, 3); return [pos, fam, mu, s, mu + s * U(-8, 8)]
